@@ -189,6 +189,9 @@ theorem attempt_ret {seed : Nat → Nat} {n k a b : Nat} (h : attempt seed n k =
       by_cases h5 : n * k < nsqrt * nsqrt
       · rw [if_pos h5] at h; simp at h
       rw [if_neg h5] at h
+      by_cases h6 : n * k - nsqrt * nsqrt = 0
+      · rw [if_pos h6] at h; simp at h
+      rw [if_neg h6] at h
       cases hf : fwdLoop seed nsqrt (3 * r) (3 * r) 1 nsqrt 1 (n * k - nsqrt * nsqrt) with
       | none => rw [hf] at h; simp [afterFwd] at h
       | some x =>
@@ -202,11 +205,12 @@ theorem attempt_ret {seed : Nat → Nat} {n k a b : Nat} (h : attempt seed n k =
           exact ⟨e, Or.inr g⟩
 
 /-- normal form of a round under the seed hypothesis: both `isqrt` calls are the floor roots and
-the three arithmetic panic sites before the first loop are discharged -/
+the three arithmetic panic sites before the first loop are discharged (the `q == 0` skip stays) -/
 theorem attempt_eq {seed : Nat → Nat} (hs : SeedOK seed) {n k : Nat} (hlt : n * k < W) :
     attempt seed n k =
       if Nat.sqrt (n * k) * Nat.sqrt (n * k) = n then
         some (.ret (Nat.sqrt (n * k)) (Nat.sqrt (n * k)))
+      else if n * k - Nat.sqrt (n * k) * Nat.sqrt (n * k) = 0 then some .next
       else
         afterFwd n (n * k) (Nat.sqrt (n * k)) (3 * Nat.sqrt (Nat.sqrt (n * k)))
           (fwdLoop seed (Nat.sqrt (n * k)) (3 * Nat.sqrt (Nat.sqrt (n * k)))
